@@ -9,6 +9,7 @@ VERIF = os.path.dirname(os.path.dirname(os.path.abspath(__file__)))
 def main():
     rows = ['| seed | what it changes (author\'s words, shortened) | confirmed (tests pass / demo fails) | caught by | note |', '|---|---|---|---|---|']
     summ = json.load(open(os.path.join(VERIF, 'seeded', 'SUMMARIES.json')))
+    notes = json.load(open(os.path.join(VERIF, 'seeded', 'NOTES.json')))
     for d in sorted(glob.glob(os.path.join(VERIF, 'seeded', '*'))):
         mp = os.path.join(d, 'meta.json')
         if not os.path.exists(mp):
@@ -20,7 +21,7 @@ def main():
             sigs.append('%s (%s)' % (c, '; '.join(x.replace('signature: ', '') for x in s)))
         missed = [c for c, r in m.get('checks', {}).items() if not (r['rc'] == 1 and r['violations'])]
         rows.append('| %s | %s | %s | %s | %s |' % (os.path.basename(d), summ.get(os.path.basename(d), m.get('summary', '')), 'yes' if m.get('confirmed') else 'NO: ' + str(m.get('testsuite_with_change')),
-                                                 '<br>'.join(sigs) or '—', m.get('note', ('not reported by: ' + ', '.join(missed)) if missed else '')))
+                                                 '<br>'.join(sigs) or '—', notes.get(os.path.basename(d), m.get('note', ('not reported by: ' + ', '.join(missed)) if missed else ''))))
     p = os.path.join(VERIF, 'DESIGN.md')
     s = open(p).read()
     a = s.index('<!-- SEEDED-TABLE-BEGIN -->') + len('<!-- SEEDED-TABLE-BEGIN -->')
